@@ -143,3 +143,16 @@ class Selfie:          # its result contains a task object (itself), which the p
 
     def run(self):
         return {'me': self, 'name': self.name}
+
+
+# ---- a cacheable task that leaves one mark file per execution (visible across worker processes)
+@labtech.task
+class KC:
+    name: str
+    deps: tuple = ()
+
+    def run(self):
+        d = os.environ.get('EXPLORE_EXEC_DIR')
+        if d:
+            open(os.path.join(d, f'{self.name}-{os.getpid()}-{len(os.listdir(d))}'), 'w').close()
+        return ('KC', self.name, tuple(x.result for x in self.deps))
